@@ -287,6 +287,29 @@ func runBIP32(c Case) res {
 		if child.String() != childStr || (serr == nil && sib.String() != sibStr) {
 			return fail("Derive-after-Zero-of-a-sibling/"+k, "after Zero() of another child of the same parent: child %d reads %s (was %s), child %d reads %s (was %s)", idx, child.String(), childStr, idx^1, sib.String(), sibStr)
 		}
+		// SetNet on the parent affects keys derived afterwards, not the ones that
+		// exist already, and not the network parameters it was created from
+		// (everything here is built on private copies of the parameters)
+		{
+			pA, pB := *net.P, *nets[(c.N+1)%len(nets)].P
+			ownID, otherID := pA.HDPrivateKeyID, pB.HDPrivateKeyID
+			if p2, perr := hdkeychain.NewMaster(seed, &pA); perr == nil {
+				ok := true
+				for _, i := range c.A[:len(c.A)-1] {
+					if p2, perr = p2.Derive(uint32(i)); perr != nil {
+						ok = false
+						break
+					}
+				}
+				if c2, cerr := p2.Derive(idx); ok && cerr == nil {
+					before := c2.String()
+					p2.SetNet(&pB)
+					if c2.String() != before || pA.HDPrivateKeyID != ownID || pB.HDPrivateKeyID != otherID {
+						return fail("SetNet-of-parent-changes-other-objects/"+k, "after parent.SetNet(another network): the child derived before reads %s (was %s), parameter ids %x/%x (were %x/%x)", c2.String(), before, pA.HDPrivateKeyID, pB.HDPrivateKeyID, ownID, otherID)
+					}
+				}
+			}
+		}
 		if again, aerr := parent.Derive(idx); aerr != nil || again.String() != childStr {
 			return fail("Derive-after-Zero-of-a-sibling/"+k, "Derive(%d) after an earlier child of the same parent was wiped with Zero() = %v (err %v), before: %s", idx, again, aerr, childStr)
 		}
